@@ -1,1 +1,333 @@
-//! Relationship-field grammar generator (model + text). Filled in with C09/C10.
+//! Relationship-field grammar generator (Debian Policy §7.1): emits
+//! (model, text) pairs so the intended content is known by construction.
+use crate::rt::Rng;
+
+#[derive(Clone, Debug, PartialEq, Eq, PartialOrd, Ord, Hash)]
+pub struct MRel {
+    pub name: String,
+    pub archqual: Option<String>,
+    /// (operator, version text)
+    pub version: Option<(String, String)>,
+    /// (negated, name)
+    pub archs: Option<Vec<(bool, String)>>,
+    /// groups of (negated, name)
+    pub profiles: Vec<Vec<(bool, String)>>,
+}
+
+impl MRel {
+    pub fn simple(name: &str) -> MRel {
+        MRel { name: name.to_string(), archqual: None, version: None, archs: None, profiles: vec![] }
+    }
+    /// canonical text: `name[:archqual] (op version) [archs] <profiles>`
+    pub fn canonical(&self) -> String {
+        let mut s = self.name.clone();
+        if let Some(a) = &self.archqual {
+            s.push(':');
+            s.push_str(a);
+        }
+        if let Some((op, v)) = &self.version {
+            s.push_str(&format!(" ({} {})", op, v));
+        }
+        if let Some(a) = &self.archs {
+            s.push_str(" [");
+            s.push_str(&a.iter().map(|(n, a)| format!("{}{}", if *n { "!" } else { "" }, a)).collect::<Vec<_>>().join(" "));
+            s.push(']');
+        }
+        for g in &self.profiles {
+            s.push_str(" <");
+            s.push_str(&g.iter().map(|(n, a)| format!("{}{}", if *n { "!" } else { "" }, a)).collect::<Vec<_>>().join(" "));
+            s.push('>');
+        }
+        s
+    }
+}
+
+#[derive(Clone, Debug, PartialEq, Eq, PartialOrd, Ord, Hash)]
+pub enum MItem {
+    Entry(Vec<MRel>),
+    Empty,
+    Substvar(String),
+}
+
+#[derive(Clone, Debug, Default)]
+pub struct GRel {
+    pub items: Vec<MItem>,
+    pub text: String,
+    pub features: Vec<&'static str>,
+}
+
+impl GRel {
+    pub fn entries(&self) -> Vec<Vec<MRel>> {
+        self.items.iter().filter_map(|i| if let MItem::Entry(e) = i { Some(e.clone()) } else { None }).collect()
+    }
+    pub fn substvars(&self) -> Vec<String> {
+        self.items.iter().filter_map(|i| if let MItem::Substvar(e) = i { Some(e.clone()) } else { None }).collect()
+    }
+}
+
+#[derive(Clone, Debug)]
+pub struct ROpts {
+    pub max_entries: usize,
+    pub max_alts: usize,
+    /// 0: canonical single-space layout; 1: free blanks/tabs/newlines around ',' and '|';
+    /// 2: also between the components of a relation
+    pub ws_level: u8,
+    pub substvars: bool,
+    pub empty_entries: bool,
+    pub trailing_comma: bool,
+    pub epochs: bool,
+    pub archqual: bool,
+    pub archs: bool,
+    pub negated_archs: bool,
+    pub profiles: bool,
+    pub multi_term_profiles: bool,
+    pub versions: bool,
+    pub name_pool: Option<&'static [&'static str]>,
+}
+
+impl Default for ROpts {
+    fn default() -> Self {
+        ROpts {
+            max_entries: 4,
+            max_alts: 3,
+            ws_level: 2,
+            substvars: false,
+            empty_entries: true,
+            trailing_comma: true,
+            epochs: true,
+            archqual: true,
+            archs: true,
+            negated_archs: true,
+            profiles: true,
+            multi_term_profiles: true,
+            versions: true,
+            name_pool: None,
+        }
+    }
+}
+
+pub const NAMES: [&str; 12] = [
+    "libc6", "python3-dulwich", "g++", "a", "x11-common", "libfoo2.0", "0ad", "gcc-12", "debhelper-compat", "z", "lib+plus",
+    "perl",
+];
+pub const ARCHQUALS: [&str; 4] = ["any", "native", "amd64", "i386"];
+pub const OPS: [&str; 5] = ["<<", "<=", "=", ">=", ">>"];
+pub const VERSIONS: [&str; 12] = [
+    "1.0", "2.3-1", "1:2.0", "1.0~rc1", "0.9+dfsg-2~bpo1", "13", "2:1.0-1+b1", "1.0-1", "0", "4.5.6~", "1:0~0", "7.1.2-3ubuntu1",
+];
+pub const ARCHS: [&str; 6] = ["amd64", "i386", "linux-any", "any-arm64", "hurd-i386", "all"];
+pub const PROFILES: [&str; 5] = ["nocheck", "stage1", "cross", "pkg.foo.bar", "nodoc"];
+pub const SUBSTVARS: [&str; 4] = ["${shlibs:Depends}", "${misc:Depends}", "${foo}", "${perl:Depends}"];
+
+fn sep_ws(r: &mut Rng, level: u8) -> &'static str {
+    if level == 0 {
+        return "";
+    }
+    *r.pick(&["", "", " ", "  ", "\t", "\n", "\n ", " \n\t"])
+}
+
+fn comp_ws(r: &mut Rng, level: u8, feats: &mut Vec<&'static str>) -> &'static str {
+    if level < 2 || r.chance(3, 4) {
+        return " ";
+    }
+    feats.push("component-ws-variant");
+    *r.pick(&["", "  ", "\t", "\n "])
+}
+
+pub fn gen_relation(r: &mut Rng, o: &ROpts) -> MRel {
+    let name = match o.name_pool {
+        Some(p) => r.pick(p).to_string(),
+        None => r.pick(&NAMES).to_string(),
+    };
+    let mut m = MRel::simple(&name);
+    if o.archqual && r.chance(1, 5) {
+        m.archqual = Some(r.pick(&ARCHQUALS).to_string());
+    }
+    if o.versions && r.chance(1, 2) {
+        let v = loop {
+            let v = *r.pick(&VERSIONS);
+            if !o.epochs && v.contains(':') {
+                continue;
+            }
+            break v;
+        };
+        m.version = Some((r.pick(&OPS).to_string(), v.to_string()));
+    }
+    if o.archs && r.chance(1, 4) {
+        let n = r.range(1, 3);
+        let neg = o.negated_archs && r.chance(1, 2);
+        let mut v = vec![];
+        for _ in 0..n {
+            let a = r.pick(&ARCHS).to_string();
+            if !v.iter().any(|(_, x)| *x == a) {
+                v.push((neg, a));
+            }
+        }
+        m.archs = Some(v);
+    }
+    if o.profiles && r.chance(1, 5) {
+        for _ in 0..r.range(1, 2) {
+            let nt = if o.multi_term_profiles { r.range(1, 2) } else { 1 };
+            let mut g = vec![];
+            for _ in 0..nt {
+                g.push((r.chance(1, 2), r.pick(&PROFILES).to_string()));
+            }
+            m.profiles.push(g);
+        }
+    }
+    m
+}
+
+/// Write a relation with the layout freedom of `o.ws_level`.
+pub fn write_relation(r: &mut Rng, o: &ROpts, m: &MRel, feats: &mut Vec<&'static str>) -> String {
+    let mut s = m.name.clone();
+    if let Some(a) = &m.archqual {
+        s.push(':');
+        s.push_str(a);
+        feats.push("archqual");
+    }
+    if let Some((op, v)) = &m.version {
+        s.push_str(comp_ws(r, o.ws_level, feats));
+        s.push('(');
+        s.push_str(op);
+        s.push_str(if o.ws_level >= 2 && r.chance(1, 4) { "" } else { " " });
+        s.push_str(v);
+        s.push(')');
+        feats.push("version");
+        if v.contains(':') {
+            feats.push("epoch");
+        }
+        if v.contains('~') {
+            feats.push("tilde");
+        }
+    }
+    if let Some(a) = &m.archs {
+        s.push_str(comp_ws(r, o.ws_level, feats));
+        s.push('[');
+        for (i, (neg, a)) in a.iter().enumerate() {
+            if i > 0 {
+                s.push_str(if o.ws_level >= 2 && r.chance(1, 6) { "  " } else { " " });
+            }
+            if *neg {
+                s.push('!');
+                feats.push("negated-arch");
+            }
+            s.push_str(a);
+        }
+        s.push(']');
+        feats.push("archs");
+    }
+    for g in &m.profiles {
+        s.push_str(comp_ws(r, o.ws_level, feats));
+        s.push('<');
+        for (i, (neg, a)) in g.iter().enumerate() {
+            if i > 0 {
+                s.push(' ');
+                feats.push("multi-term-profile");
+            }
+            if *neg {
+                s.push('!');
+            }
+            s.push_str(a);
+        }
+        s.push('>');
+        feats.push("profiles");
+    }
+    s
+}
+
+/// Generate a well-formed relationship field in the sense of property C10.
+pub fn gen_field(r: &mut Rng, o: &ROpts) -> GRel {
+    let mut g = GRel::default();
+    let mut feats: Vec<&'static str> = vec![];
+    let n = if r.chance(1, 30) { 0 } else { r.range(1, o.max_entries.max(1)) };
+    let mut t = String::new();
+    t.push_str(sep_ws(r, o.ws_level.min(1)));
+    for i in 0..n {
+        if i > 0 {
+            t.push_str(sep_ws(r, o.ws_level));
+            t.push(',');
+            t.push_str(if o.ws_level == 0 { " " } else { sep_ws(r, o.ws_level) });
+        }
+        if o.substvars && r.chance(1, 5) {
+            let sv = r.pick(&SUBSTVARS).to_string();
+            t.push_str(&sv);
+            g.items.push(MItem::Substvar(sv));
+            feats.push("substvar");
+            continue;
+        }
+        if o.empty_entries && i > 0 && r.chance(1, 12) {
+            g.items.push(MItem::Empty);
+            feats.push("empty-entry");
+            continue;
+        }
+        let na = r.range(1, o.max_alts.max(1));
+        let mut alts = vec![];
+        for j in 0..na {
+            if j > 0 {
+                if o.ws_level == 0 {
+                    t.push_str(" | ");
+                } else {
+                    t.push_str(sep_ws(r, o.ws_level));
+                    t.push('|');
+                    t.push_str(sep_ws(r, o.ws_level));
+                }
+                feats.push("alternatives");
+            }
+            let m = gen_relation(r, o);
+            t.push_str(&write_relation(r, o, &m, &mut feats));
+            alts.push(m);
+        }
+        g.items.push(MItem::Entry(alts));
+    }
+    if o.trailing_comma && n > 0 && r.chance(1, 8) {
+        t.push_str(sep_ws(r, o.ws_level));
+        t.push(',');
+        feats.push("trailing-comma");
+    }
+    if o.ws_level > 0 {
+        t.push_str(sep_ws(r, 1));
+    }
+    if t.contains('\n') {
+        feats.push("newline-layout");
+    }
+    feats.sort();
+    feats.dedup();
+    g.features = feats;
+    g.text = t;
+    g
+}
+
+/// Shape features of arbitrary relation text, for violation signatures.
+pub fn rel_shape(s: &str) -> &'static str {
+    let mut depth_b = 0i32;
+    let mut depth_c = 0i32;
+    let mut depth_a = 0i32;
+    let mut depth_p = 0i32;
+    for c in s.chars() {
+        match c {
+            '[' => depth_b += 1,
+            ']' => depth_b -= 1,
+            '{' => depth_c += 1,
+            '}' => depth_c -= 1,
+            '<' => depth_a += 1,
+            '>' => depth_a -= 1,
+            '(' => depth_p += 1,
+            ')' => depth_p -= 1,
+            _ => {}
+        }
+    }
+    if depth_b > 0 {
+        "unterminated-bracket"
+    } else if s.contains('$') && (depth_c > 0 || !s.contains('}')) {
+        "unterminated-substvar"
+    } else if depth_a > 0 {
+        "unterminated-angle"
+    } else if depth_p > 0 {
+        "unterminated-paren"
+    } else if !s.is_ascii() {
+        "non-ascii"
+    } else {
+        "balanced"
+    }
+}
